@@ -154,7 +154,7 @@ def base_case(rng, tmpls=None, p_focused=0.4, **kw):
     data, nodes, lits = S.gen_typed_data(rng, n_iri=rng.randint(2, 5), n_bn=rng.randint(0, 1), n_lit=rng.randint(0, 2), n_triples=rng.randint(2, 12))
     if rng.random() < p_focused:
         # focused case: one mechanism only, so that a wrong verdict of one shape is not masked by other shapes
-        tmpl = rng.choice(tmpls or [S.tmpl_custom, S.tmpl_severity, S.tmpl_qualified, S.tmpl_nested_severity, S.tmpl_shared, S.tmpl_multi_logical, S.tmpl_custom_alone])
+        tmpl = rng.choice(tmpls or [S.tmpl_custom, S.tmpl_severity, S.tmpl_qualified, S.tmpl_nested_severity, S.tmpl_shared, S.tmpl_multi_logical, S.tmpl_custom_alone, S.tmpl_several_lists])
         shapes = tmpl(rng, nodes, lits)
         if rng.random() < 0.3:
             shapes[0]["targets"]["nodes"] = shapes[0]["targets"]["nodes"][:1]
